@@ -2,11 +2,14 @@
 """Regenerates /verif/MANIFEST.json from checks/C*.json (one entry per claimed property) and checks/not_applicable.json."""
 import json, glob, os
 ROOT = os.path.dirname(os.path.dirname(os.path.abspath(__file__)))
+na_path = os.path.join(ROOT, "checks", "not_applicable.json")
+na = json.load(open(na_path)) if os.path.exists(na_path) else []
+na_ids = {x["property_id"] for x in na}
 checks = []
 for path in sorted(glob.glob(os.path.join(ROOT, "checks", "C*.json"))):
     pid = os.path.basename(path)[:-5]
     c = json.load(open(path))
-    if c.get("disabled"): continue
+    if c.get("disabled") or pid in na_ids: continue
     checks.append({
         "property_id": pid,
         "quick_cmd": "./check %s --tier quick" % pid,
@@ -18,10 +21,7 @@ for path in sorted(glob.glob(os.path.join(ROOT, "checks", "C*.json"))):
         "level_note": c.get("level_note", "; ".join(c.get("trusted_base", []) + c.get("assumptions", []))),
         "technique": c.get("technique", "Lean 4 theorems about a hand-written executable model + differential correspondence of the model with the Go implementation"),
     })
-na_path = os.path.join(ROOT, "checks", "not_applicable.json")
-na = json.load(open(na_path)) if os.path.exists(na_path) else []
 claimed = {c["property_id"] for c in checks}
-na = [x for x in na if x["property_id"] not in claimed]
 hooks_path = os.path.join(ROOT, "checks", "hooks.json")
 hooks = json.load(open(hooks_path)) if os.path.exists(hooks_path) else {"source_commits": []}
 m = {
